@@ -118,6 +118,15 @@ def run_blob(case):
             if o["type"] == "raw":
                 ob.new_output()
         where = f"dir={case['dir']} len={n} kind={kind} fmt={fmt!r} frags={case.get('frags')}"
+        # element lengths are MEASURED on the wire (a model of the message goes stale: a second element in the vector ...)
+        def _last_len(raw: bytes, tag: str, fallback: int) -> int:
+            s_ = raw.decode("latin1")
+            i_ = s_.rfind("<" + tag)
+            j_ = s_.find("</" + tag + ">", i_) if i_ >= 0 else -1
+            return (j_ + len(tag) + 3 - i_) if j_ >= 0 else fallback
+
+        down_mark = len(st_.blob.link.b_writer.all)
+        up_marks = [len(st_.control.link.a_writer.all), len(st_.blob.link.a_writer.all)]
         el_len = set_blob_length(data, fmt, "setBLOBVector")
         if case["dir"] == "up":
             up_len = set_blob_length(data, fmt, "newBLOBVector")
@@ -130,6 +139,7 @@ def run_blob(case):
             except Exception as exc:  # noqa
                 f = lib_exception_failure(exc, "upload-submit")
                 raise Failure(f.sig, f"{where}: {f.msg}")
+            up_len = max(_last_len(bytes(w.all[m:]), "newBLOBVector", 0) for w, m in zip((st_.control.link.a_writer, st_.blob.link.a_writer), up_marks)) or up_len
             got = drv.g.bl.a._value
             got_bytes = b"" if got is None else got.binary
             if got_bytes != data or (data and (got.format != fmt or got.size != len(data))):
@@ -146,6 +156,7 @@ def run_blob(case):
                 st_.in_loop(lambda: setattr(drv.g.bl, "state_", "Busy"))
             else:
                 st_.in_loop(lambda: setattr(drv.g.bl.a, "value", values.BLOB(data, fmt)))
+        el_len = _last_len(bytes(st_.blob.link.b_writer.all[down_mark:]), "setBLOBVector", el_len)
         # ---- the driver's BLOB as seen by the two-connection Client ---------------------------
         want = drv.g.bl.a._value
         want_bytes = b"" if want is None else want.binary
